@@ -365,6 +365,12 @@ func driveNum(plan []M, out *Out, _ []string) {
 						e["rb"] = typ.IsZero(zeroer{7})
 					case "zeroer-false":
 						e["rb"] = typ.IsZero(zeroer{v[0]})
+					case "zeroer-zero": // the zero value of a type whose IsZero method would say "false" for it
+						e["rb"] = typ.IsZero(zeroer{})
+					case "nilptr-zeroer": // a nil pointer to a type with a value-receiver IsZero method
+						e["rb"] = typ.IsZero((*zeroer)(nil))
+					case "ptr-zeroer": // non-nil pointer whose method says zero
+						e["rb"] = typ.IsZero(&zeroer{7})
 					}
 				case "RefDeref":
 					p, q := typ.Ref(v[0]), typ.Ref(v[0])
